@@ -145,5 +145,21 @@ theorem c10_forward (req reply rest : Bytes) (h1 : req.length ≤ Wire.maxAgentR
   have : ¬ req.length > Wire.maxAgentResponseBytes := Nat.not_lt.mpr h1
   simp [this]
 
+/-- A raw request never touches the shim's own state — certificate tables, cache, lock flag, mode —
+    whatever the underlying agent does with it, locked or not; only the connection may be lost. -/
+theorem c10_forward_state (s : State) (now : Nat) (f : Faults) (req : Bytes) :
+    let s' := (step s now f (.forward req)).1
+    s'.certs = s.certs ∧ s'.cache = s.cache ∧ s'.locked = s.locked ∧ s'.noUp = s.noUp ∧
+    s'.u.idents = s.u.idents ∧ s'.u.locked = s.u.locked := by
+  simp only [step]
+  split
+  · exact ⟨rfl, rfl, rfl, rfl, rfl, rfl⟩
+  · split <;> exact ⟨rfl, rfl, rfl, rfl, rfl, rfl⟩
+
+/-- … and when the underlying agent answers, the caller gets that answer as it is. -/
+theorem c10_forward_reply (s : State) (now : Nat) (req : Bytes) (hopen : s.u.closed = false) :
+    (step s now noFaults (.forward req)).2 = .forwarded (0xAA :: req) := by
+  simp [step, hopen, noFaults]
+
 end C10
 end Ysshra
